@@ -284,7 +284,7 @@ def join(states, tag, lenient_ret=False):
     # "consumed and not looked at since" is a may-property: union over the incoming paths
     for s_ in states:
         for k in s_.misc:
-            if isinstance(k, tuple) and k and k[0] == "dirty":
+            if isinstance(k, tuple) and k and k[0] in ("dirty", "unrec"):
                 out.misc[k] = True
     for k in set(first.path):
         if all(k in s_.path and s_.path[k] == first.path[k] for s_ in states[1:]):
@@ -336,6 +336,10 @@ PANIC_FNS = ("core::panicking::panic", "core::panicking::panic_fmt", "core::pani
              "std::rt::begin_panic", "core::panicking::panic_explicit", "core::panicking::assert_failed", "core::option::expect_failed", "core::result::unwrap_failed")
 
 
+ROOT_PRESERVING = ("deref", "deref_mut", "as_mut", "as_ref", "get_mut", "as_deref_mut", "as_pin_mut", "get_unchecked_mut", "unwrap", "expect",
+                   "as_mut_slice", "borrow_mut", "get_or_insert_with", "insert", "project")
+
+
 def is_buf_ty(ty):
     t = ty.replace("&mut ", "").replace("&", "")
     return any(k in t for k in ("BytesMut", "bytes::Bytes", "Cursor<", "[u8", "Vec<u8>", "dyn aead::Buffer", "dyn aes_gcm::aead::Buffer", "GenericArray<u8", "str", "String")) or t.strip() in ("[u8]",)
@@ -372,6 +376,7 @@ class Analysis:
         self.const_fns = {}
         self.visited_fns = set()
         self.events = defaultdict(list)   # fn -> [(block, kind, payload)]  e.g. need-more returns for C04
+        self._rooted_stack = []
         self.len_guards = defaultdict(dict)   # fn -> {switch block: True if some context compares a length of the decoder's source buffer}
         self.enum_variants = {}
         for it in prog.items:
@@ -558,6 +563,12 @@ class Analysis:
                     work.add(n2)
         if not returns:
             return None
+        if depth == 0:
+            # need-more answers of the entry function itself, judged where they leave it (after whatever the function stored on the way out)
+            for (b_, g_), s_ in sorted(returns.items(), key=lambda x: (x[0][0], str(x[0][1]))):
+                if g_[0] in ("Ok", None) and g_[1] == "None":
+                    unrec = sorted(k[1] for k in s_.misc if isinstance(k, tuple) and k and k[0] == "unrec")
+                    self.events[body.defp].append((b_, "need-more-progress", unrec, tuple(ctx), (body.term(b_) or {}).get("sp")))
         allr = join(list(returns.values()), f"ret:{short(body.defp)}", lenient_ret=True)
         if want_groups:
             okg = (None, "Ok", "Some", "Continue", "Ready")
@@ -611,6 +622,9 @@ class Analysis:
         # writes through a dereferenced pointer / into self state: only drop what we knew about that place
         self.kill(st, p)
         if any(e[0] == "deref" for e in p[1]):
+            # a store through a pointer that came in as an argument (self.state = .., *flag = ..): progress recorded outside this call
+            if self._arg_rooted(body, p[0]):
+                self._state_written(st)
             # a store into *p: path facts about discriminants of that place die
             rep = _place_repr(p)
             for key in [kx for kx in st.path if kx[0] == "d" and (kx[1] == rep or kx[1].startswith(rep) or rep.startswith(kx[1]))]:
@@ -767,6 +781,7 @@ class Analysis:
                 if f_ and f_[0] == "variant" and f_[1] == "None":
                     dirty = sorted(k[1] for k in st.misc if isinstance(k, tuple) and k and k[0] == "dirty")
                     self.events[body.defp].append((blk, "need-more", dirty, tuple(ctx), s["sp"]))
+
             if ak in ("tuple", "adt", "closure", "coroutine"):
                 vname = rv.get("variant") if ak == "adt" else None
                 is_enum = ak == "adt" and rv.get("def") in self.enum_variants or (vname in ("Some", "None", "Ok", "Err", "Continue", "Break", "Ready", "Pending"))
@@ -970,6 +985,14 @@ class Analysis:
                         st.misc.pop(kx)
                     for o_ in okf_[3]:
                         st.misc[("dirty", o_)] = True
+                if len(okf_) > 5:
+                    # the same for "taken from the stream, nothing stored yet": what this variant's returns say
+                    for kx in [k for k in st.misc if isinstance(k, tuple) and k and k[0] == "unrec"]:
+                        st.misc.pop(kx)
+                    for o_ in okf_[4]:
+                        st.misc[("unrec", o_)] = True
+                    if okf_[5]:
+                        st.misc[("stw",)] = True
             if v is not None:
                 set_discr(st, rep, v, True, nv)
                 pk_ = pkey(place)
@@ -1381,6 +1404,9 @@ class Analysis:
 
     def consumed(self, st, o, blk):
         st.misc[("dirty", o)] = True
+        # bytes were removed from this object and the decoder's state has not been written on this path (before or after)
+        if not st.misc.get(("stw",)):
+            st.misc[("unrec", o)] = True
 
     def unknown_call(self, body, blk, t, c, st, ctx):
         fn = short(body.defp)
@@ -1395,6 +1421,8 @@ class Analysis:
             ty = body.local_ty(p[0])
             if "&mut" in ty:
                 pure = False
+                if not is_buf_ty(ty) and self._arg_rooted(body, p[0]):
+                    self._state_written(st)    # a library call may store into state that outlives this call
                 if is_buf_ty(ty) and not re.match(r"^&mut \[u8(; \w+)?\]$", ty.strip()) and "GenericArray" not in ty:
                     o = self.obj_at(st, body, p)
                     if o is not None:
@@ -1453,6 +1481,37 @@ class Analysis:
         self._tsl[key] = res
         return res
 
+    @staticmethod
+    def _state_written(st):
+        st.misc[("stw",)] = True
+        for kx in [k for k in st.misc if isinstance(k, tuple) and k and k[0] == "unrec"]:
+            st.misc.pop(kx)
+
+    def _arg_rooted(self, body, local, depth=0):
+        """does this pointer local come from one of the function's own arguments (possibly re-borrowed)?"""
+        if local <= body.argc:
+            # in an inlined callee only those parameters count whose actual argument was itself rooted in the entry function's arguments
+            top = self._rooted_stack[-1] if self._rooted_stack else None
+            return local >= 1 and (top is None or local in top)
+        if depth > 6:
+            return False
+        for d in body.defs().get(local, []):
+            if d[0] == "call":
+                # a reference obtained from a rooted reference through an accessor (Box/Option/Pin deref, as_mut, get_mut, ...)
+                c_ = Callee(d[2]["f"])
+                if (c_.name in ALIAS_CALLS or (c_.method or "") in ROOT_PRESERVING) and d[2]["args"]:
+                    q = op_place(d[2]["args"][0])
+                    if q is not None and self._arg_rooted(body, q[0], depth + 1):
+                        return True
+                continue
+            if d[0] != "assign":
+                continue
+            rv = d[3]["rv"]
+            q = rv.get("p") if rv["k"] in ("ref", "rawptr") else (op_place(rv.get("op")) if rv["k"] in ("use", "cast") else None)
+            if q is not None and self._arg_rooted(body, q[0], depth + 1):
+                return True
+        return False
+
     def _ref_root(self, body, p):
         """textual root of a reference operand (`&(*_2).kind` -> '(*_2).kind')"""
         if p[1]:
@@ -1493,7 +1552,16 @@ class Analysis:
                     o = f"constarg:{short(callee.defp)}:{blk}:{i}"
                     cs.len[o] = Lin(len(k["str"].encode())) if "str" in k else Lin(len(k["bytes"]))
                     cs.obj[(pl, ())] = o
-        rr = self.run(callee, cs, ctx + [callee.defp], depth + 1, want_groups=True)
+        rooted = set()
+        for i, a in enumerate(t["args"]):
+            p = op_place(a)
+            if p is not None and self._arg_rooted(body, p[0]):
+                rooted.add(i + 1)
+        self._rooted_stack.append(rooted)
+        try:
+            rr = self.run(callee, cs, ctx + [callee.defp], depth + 1, want_groups=True)
+        finally:
+            self._rooted_stack.pop()
         dkey = pkey(t["dest"])
         if rr is None:
             return "diverges"
@@ -1503,7 +1571,8 @@ class Analysis:
             cons_ = tuple(c_ for c_ in sub.cons if c_ not in ret.cons)
             lens_ = tuple(sorted(((o, L) for o, L in sub.len.items() if ret.len.get(o) != L), key=lambda x: x[0]))
             dirty_ = tuple(sorted(k[1] for k in sub.misc if isinstance(k, tuple) and k and k[0] == "dirty"))
-            return ("okfacts", cons_, lens_, dirty_)
+            unrec_ = tuple(sorted(k[1] for k in sub.misc if isinstance(k, tuple) and k and k[0] == "unrec"))
+            return ("okfacts", cons_, lens_, dirty_, unrec_, bool(sub.misc.get(("stw",))))
 
         if ret_ok is not None:
             # what only holds when the callee returned its success variant: applied when the caller takes the success arm
@@ -1525,8 +1594,10 @@ class Analysis:
         src_m = ret_ok.misc if ret_ok is not None else ret.misc
         for kx in [k for k in st.misc if isinstance(k, tuple) and k and k[0] == "dirty"]:
             st.misc.pop(kx)
+        for kx in [k for k in st.misc if isinstance(k, tuple) and k and k[0] == "unrec"]:
+            st.misc.pop(kx)
         for kx in src_m:
-            if isinstance(kx, tuple) and kx and kx[0] == "dirty":
+            if isinstance(kx, tuple) and kx and kx[0] in ("dirty", "unrec", "stw"):
                 st.misc[kx] = True
         for cons in ret.cons:
             st.add_con(cons)
